@@ -148,7 +148,7 @@ package journal
 //
 //@ func Valuate$1
 //@   requires d != nil && keysOK(quantities) && reg != nil && reg.accounts != nil
-//@   modifies prices, d.Transactions, d.Transactions[*], reg.accounts.index[*], reg.accounts.swaps[*]
+//@   modifies prices, d.Transactions, d.Transactions[*], reg.accounts.index[*]
 //@   ensures @today: prices == d.Normalized
 //@   ensures @missing: result == nil ==> (forall k amounts.Key :: {key(quantities, k)} (k in quantities) && needsReval(k, quantities, valuation) ==> (k.Commodity in prevPrices) && (k.Commodity in d.Normalized))
 //@   ensures @kept: len(d.Transactions) >= old(len(d.Transactions)) && (forall j int :: {d.Transactions[j]} 0 <= j && j < old(len(d.Transactions)) ==> d.Transactions[j] == old(d.Transactions[j]))
@@ -162,6 +162,29 @@ package journal
 // CloseAccounts: on a closing day every accumulated income/expense/equity position with a non-zero
 // quantity or value is transferred to Equity:Equity by one balanced transaction; postings on
 // asset/liability accounts and on Equity:Equity itself are not accumulated.
+// Days: the days of the given dates, in the order of the dates (created where missing).
+//@ func (*Builder).Days
+//@   requires wfBuilder(j)
+//@   modifies j.days[*]
+//@   ensures wfBuilder(j) && len(result) == len(dates)
+//@   ensures forall k int :: {result[k]} 0 <= k && k < len(dates) ==> (dates[k] in j.days) && result[k] == j.days[dates[k]] && result[k] != nil
+//@   ensures forall t time.Time :: {key(j.days, t)} old(t in j.days) ==> (t in j.days) && j.days[t] == old(j.days[t])
+//@   loop 1 invariant wfBuilder(j) && len(res) == $i && 0 <= $i && $i <= len(dates)
+//@   loop 1 invariant forall k int :: {res[k]} 0 <= k && k < $i ==> (dates[k] in j.days) && res[k] == j.days[dates[k]] && res[k] != nil
+//@   loop 1 invariant forall t time.Time :: {key(j.days, t)} old(t in j.days) ==> (t in j.days) && j.days[t] == old(j.days[t])
+//
+// CloseAccounts (the constructor): the closing days are the days of ALL period start dates of the
+// partition - the result of StartDates goes unchanged into Builder.Days and that into the set.
+//@ func CloseAccounts
+//@   requires wfBuilder(j) && reg != nil && reg.accounts != nil
+//@   modifies j.days[*], reg.accounts.index[*]
+//@   callback StartDates=0
+//@   callback Days=1
+//@   callback FromSlice=2
+//@   ensures !enable ==> result == nil && tlen() == old(tlen())
+//@   ensures @days: enable ==> tlen() == old(tlen()) + 3 && targ("Days", 0, old(tlen()) + 1) == tres("StartDates", old(tlen()))
+//@        && targ("FromSlice", 0, old(tlen()) + 2) == tres("Days", old(tlen()) + 1)
+//
 //@ func CloseAccounts$2
 //@   requires p != nil && validAccount(p.Account) && p.Commodity != nil && keysOK(quantities) && values != nil && quantities != values
 //@   ensures keysOK(quantities)
